@@ -28,7 +28,7 @@ META = {
                    '(structure and object identity) of target, spec and caller scope are compared before/after every thunk.',
     'bounds': {
         'quick': {'history length': 3, 'thunk pool': 14, 'toggles': 7, 'data': 'unbounded symbolic ints, lists <= 3'},
-        'thorough': {'history length': '2 (every thunk pair x every toggle), 3 (8 leading pairs x 6 third thunks x 3 x 3 toggles; 4 concrete families with a free second call, 80 with a repeated one, checked against fresh-interpreter constants), 4 (12 families)'},
+        'thorough': {'history length': '2 (every thunk pair x every toggle), 3 (8 leading pairs x 6 third thunks x 3 x 3 toggles; 4 concrete families with a free second call, 36 with a repeated one, checked against fresh-interpreter constants), 4 (12 families)'},
     },
     'stubs': ['S3 glom_debug=True', 'S4 state reset (the definition of fresh state for symbolic thunks)'],
     'outside_claim': ['>10000 distinct path strings is represented by a directly constructed over-full cache', 'interleaving with '
@@ -353,7 +353,7 @@ def obligations(tier):
                       name='history2_%d' % p0, timeout=200))
     # length 3, concrete data, checked against fresh-interpreter constants: first call, a toggle, the SAME spec again or
     # another thunk, a second toggle, any thunk
-    p0s = (0, 1, 4, 8, 15) if q else range(NTHUNK)
+    p0s = (0, 1, 4, 8, 15) if q else (0, 1, 4, 8, 12, 15, 16, 18, 19)     # sized: each obligation replays 160 three-call histories
     g0s = (1, 4, 6, 7)
     for p0 in p0s:
         for g0 in g0s:
